@@ -140,55 +140,79 @@ structure Applied where
 
 def padTo (w : Nat) (bs : Bytes) : Bytes := if bs.length = 0 then List.replicate w 0 else bs
 
-/-- numeric / string / record / enum / key `Apply` over the ops of one section of chunk `chunk` -/
+/-- accumulator of the main pass over one section: column, rewritten ops (reversed), appended puts -/
+abbrev ApplyAcc := Col × List Op × List Op
+
+/-- `numericColumn.Apply`, one op -/
+def stepNum (k : NumKind) (acc : ApplyAcc) (o : Op) : ApplyAcc :=
+  let (c, done, app) := acc
+  let i := o.idx
+  if o.typ = opPut then
+    ({ c with bits := c.bits.setIfInBounds i true, data := c.data.setIfInBounds i (valRaw o.val) }, o :: done, app)
+  else if o.typ = opMerge then
+    let v := c.merge (padTo k.width (c.data.getD i [])) (valRaw o.val)
+    ({ c with bits := c.bits.setIfInBounds i true, data := c.data.setIfInBounds i v },
+      swapInPlace o (.fixed k.code v) :: done, app)
+  else if o.typ = opDelete then ({ c with bits := c.bits.setIfInBounds i false }, o :: done, app)
+  else (c, o :: done, app)
+
+/-- `columnString.Apply` (also record columns), one op: a merge whose result has another length
+    than the delta is marked `Skip` and its result appended through the parent buffer -/
+def stepStr (acc : ApplyAcc) (o : Op) : ApplyAcc :=
+  let (c, done, app) := acc
+  let i := o.idx
+  if o.typ = opPut then
+    ({ c with bits := c.bits.setIfInBounds i true, data := c.data.setIfInBounds i (valRaw o.val) }, o :: done, app)
+  else if o.typ = opMerge then
+    let v := c.merge (c.data.getD i []) (valRaw o.val)
+    let c' := { c with bits := c.bits.setIfInBounds i true, data := c.data.setIfInBounds i v }
+    if v.length = (valRaw o.val).length then (c', swapInPlace o (.str v) :: done, app)
+    else (c', markSkip o :: done, app ++ [⟨opPut, i, .str v⟩])
+  else if o.typ = opDelete then ({ c with bits := c.bits.setIfInBounds i false }, o :: done, app)
+  else (c, o :: done, app)
+
+/-- `columnEnum.Apply`, one op (interning by 32-bit hash, first string wins) -/
+def stepEnum (hash : Bytes → Nat) (acc : ApplyAcc) (o : Op) : ApplyAcc :=
+  let (c, done, app) := acc
+  let i := o.idx
+  if o.typ = opPut then
+    let h := hash (valRaw o.val)
+    let intern := if c.intern.contains h then c.intern else c.intern.insert h (valRaw o.val)
+    ({ c with bits := c.bits.setIfInBounds i true, data := c.data.setIfInBounds i (natToBE 4 h), intern := intern },
+      o :: done, app)
+  else if o.typ = opDelete then ({ c with bits := c.bits.setIfInBounds i false }, o :: done, app)
+  else (c, o :: done, app)
+
+/-- `columnKey.Apply`, one op (after the re-key repair) -/
+def stepKey (acc : ApplyAcc) (o : Op) : ApplyAcc :=
+  let (c, done, app) := acc
+  let i := o.idx
+  if o.typ = opPut then
+    let v := valRaw o.val
+    let prev := c.data.getD i []
+    let seek :=
+      if Bits.get c.bits i ∧ prev ≠ v ∧ c.seek.get? prev = some i then c.seek.erase prev else c.seek
+    ({ c with bits := c.bits.setIfInBounds i true, data := c.data.setIfInBounds i v, seek := seek.insert v i },
+      o :: done, app)
+  else if o.typ = opDelete then
+    ({ c with bits := c.bits.setIfInBounds i false, seek := c.seek.erase (c.data.getD i []) }, o :: done, app)
+  else (c, o :: done, app)
+
+def stepOf (hash : Bytes → Nat) (k : Kind) : ApplyAcc → Op → ApplyAcc :=
+  match k with
+  | .num nk => stepNum nk
+  | .str | .record => stepStr
+  | .enum => stepEnum hash
+  | .key => stepKey
+  | _ => fun acc o => (acc.1, o :: acc.2.1, acc.2.2)
+
+/-- numeric / string / record / enum / key `Apply` over the ops of one section of chunk `chunk`
+    (`chunkAt(chunk)` panics when the column has no such chunk) -/
 def applyData (hash : Bytes → Nat) (c : Col) (chunk : Nat) (ops : List Op) : Applied :=
-  if chunk ≥ c.nchunks then { col := c, ops := ops, appended := [], panic := !ops.isEmpty || true }
+  if chunk ≥ c.nchunks then { col := c, ops := ops, appended := [], panic := true }
   else
-    let step := fun (acc : Col × List Op × List Op) (o : Op) =>
-      let (c, done, app) := acc
-      let i := o.idx
-      match c.kind with
-      | .num k =>
-        if o.typ = opPut then
-          ({ c with bits := c.bits.setIfInBounds i true, data := c.data.setIfInBounds i (valRaw o.val) }, o :: done, app)
-        else if o.typ = opMerge then
-          let v := c.merge (padTo k.width (c.data.getD i [])) (valRaw o.val)
-          ({ c with bits := c.bits.setIfInBounds i true, data := c.data.setIfInBounds i v },
-            swapInPlace o (.fixed k.code v) :: done, app)
-        else if o.typ = opDelete then ({ c with bits := c.bits.setIfInBounds i false }, o :: done, app)
-        else (c, o :: done, app)
-      | .str | .record =>
-        if o.typ = opPut then
-          ({ c with bits := c.bits.setIfInBounds i true, data := c.data.setIfInBounds i (valRaw o.val) }, o :: done, app)
-        else if o.typ = opMerge then
-          let v := c.merge (c.data.getD i []) (valRaw o.val)
-          let c' := { c with bits := c.bits.setIfInBounds i true, data := c.data.setIfInBounds i v }
-          if v.length = (valRaw o.val).length then (c', swapInPlace o (.str v) :: done, app)
-          else (c', markSkip o :: done, app ++ [⟨opPut, i, .str v⟩])
-        else if o.typ = opDelete then ({ c with bits := c.bits.setIfInBounds i false }, o :: done, app)
-        else (c, o :: done, app)
-      | .enum =>
-        if o.typ = opPut then
-          let h := hash (valRaw o.val)
-          let intern := if c.intern.contains h then c.intern else c.intern.insert h (valRaw o.val)
-          ({ c with bits := c.bits.setIfInBounds i true, data := c.data.setIfInBounds i (natToBE 4 h), intern := intern },
-            o :: done, app)
-        else if o.typ = opDelete then ({ c with bits := c.bits.setIfInBounds i false }, o :: done, app)
-        else (c, o :: done, app)
-      | .key =>
-        if o.typ = opPut then
-          let v := valRaw o.val
-          let prev := c.data.getD i []
-          let seek :=
-            if Bits.get c.bits i ∧ prev ≠ v ∧ c.seek.get? prev = some i then c.seek.erase prev else c.seek
-          ({ c with bits := c.bits.setIfInBounds i true, data := c.data.setIfInBounds i v, seek := seek.insert v i },
-            o :: done, app)
-        else if o.typ = opDelete then
-          ({ c with bits := c.bits.setIfInBounds i false, seek := c.seek.erase (c.data.getD i []) }, o :: done, app)
-        else (c, o :: done, app)
-      | _ => (c, o :: done, app)
-    let (c', done, app) := ops.foldl step (c, [], [])
-    { col := c', ops := done.reverse, appended := app }
+    let r := ops.foldl (stepOf hash c.kind) (c, [], [])
+    { col := r.1, ops := r.2.1.reverse, appended := r.2.2 }
 
 /-- bool / index / trigger / sorted-index `Apply` (no rewriting) -/
 def applyOther (c : Col) (ops : List Op) : Col × Bool :=
